@@ -141,7 +141,12 @@ func (f *compressFilter) Do(cmd string, req *simpleRequest) FilterStatus {
 		req.SetResponse(newError(errStr))
 		return Stop
 	}
-	f.Compress(cfg, cmd, req.body)
+	// The request passes the filter chain again when it's resent after
+	// a redirection, its values must not be compressed twice.
+	if !req.compressed {
+		f.Compress(cfg, cmd, req.body)
+		req.compressed = true
+	}
 	return Continue
 }
 
